@@ -616,22 +616,24 @@ class Model():
             'Get associated assets for asset "%s"(%d) by field name %s.',
             asset.name, asset.id, field_name
         )
-        associated_assets = []
+        associated_assets: list = []
         for association in asset.associations:
-            # Determine which two of the fields matches the asset given.
-            # The other field will provide the associated assets.
+            # Determine which of the two fields contains the asset given.
+            # The other field will provide the associated assets. An asset
+            # can be on both sides of a reflexive association, and is then
+            # listed twice in asset.associations.
             left_field_name, right_field_name = \
                 self.get_association_field_names(association)
 
-            if asset in getattr(association, left_field_name):
-                opposite_field_name = right_field_name
-            else:
-                opposite_field_name = left_field_name
-
-            if opposite_field_name == field_name:
-                associated_assets.extend(
-                    getattr(association, opposite_field_name)
-                )
+            for own_field_name, opposite_field_name in (
+                    (left_field_name, right_field_name),
+                    (right_field_name, left_field_name)):
+                if opposite_field_name != field_name or \
+                        asset not in getattr(association, own_field_name):
+                    continue
+                for other in getattr(association, opposite_field_name):
+                    if not any(other is known for known in associated_assets):
+                        associated_assets.append(other)
 
         return associated_assets
 
